@@ -246,22 +246,25 @@ Proof. intros. unfold outputs. now rewrite map_length, seq_length. Qed.
 
 Lemma outputs_nth : forall rs c evs o, (o <= ploidy c)%nat ->
   nth o (outputs rs c evs) None =
-  if nth o (req c) false then Some (map (written rs) (out_reads c evs o)) else None.
+  if visible c o then Some (map (written rs) (out_reads c evs o)) else None.
 Proof. intros rs c evs o Ho. unfold outputs. rewrite nth_map_seq by lia. reflexivity. Qed.
+
+Lemma visible_req : forall c o, visible c o = true -> nth o (req c) false = true.
+Proof. intros c o H. unfold visible in H. now apply andb_true_iff in H as [H _]. Qed.
 
 Lemma routing_gen : forall rs c l reads outs hist o,
   discard c && early_exit rs = false ->
   run rs c l reads = Done outs hist ->
   (o <= ploidy c)%nat ->
   nth o outs None =
-  if nth o (req c) false
+  if visible c o
   then Some (map (written rs)
                (filter (fun r => kept c (entries l) r && goes_to c (assign c (entries l) (rname r)) o) reads))
   else None.
 Proof.
   intros rs c l reads outs hist o Hx Hrun Ho.
   apply run_done in Hrun as [_ [-> _]]. rewrite outputs_nth by assumption.
-  destruct (nth o (req c) false) eqn:Hreq; [|reflexivity].
+  destruct (visible c o) eqn:Hreq; [|reflexivity]. apply visible_req in Hreq.
   unfold events. now rewrite out_reads_no_exit.
 Qed.
 
@@ -273,11 +276,11 @@ Lemma routing : forall rs c l reads outs hist o,
   run rs c l reads = Done outs hist ->
   (o <= ploidy c)%nat ->
   nth o outs None =
-  if nth o (req c) false then Some (exp_out c (entries l) (assign c (entries l)) reads o) else None.
+  if visible c o then Some (exp_out c (entries l) (assign c (entries l)) reads o) else None.
 Proof.
   intros rs c l reads outs hist o He Hf Hrun Ho.
   rewrite (routing_gen rs c l reads outs hist o) by (try assumption; rewrite He; apply andb_false_r).
-  destruct (nth o (req c) false); [|reflexivity]. unfold exp_out. now rewrite written_payload.
+  destruct (visible c o); [|reflexivity]. unfold exp_out. now rewrite written_payload.
 Qed.
 
 (* without --discard-unknown-reads the early exit is dead code: routing holds for the legacy rules too *)
@@ -286,11 +289,11 @@ Lemma routing_no_discard : forall rs c l reads outs hist o,
   run rs c l reads = Done outs hist ->
   (o <= ploidy c)%nat ->
   nth o outs None =
-  if nth o (req c) false then Some (exp_out c (entries l) (assign c (entries l)) reads o) else None.
+  if visible c o then Some (exp_out c (entries l) (assign c (entries l)) reads o) else None.
 Proof.
   intros rs c l reads outs hist o Hd Hf Hrun Ho.
   rewrite (routing_gen rs c l reads outs hist o) by (try assumption; now rewrite Hd).
-  destruct (nth o (req c) false); [|reflexivity]. unfold exp_out. now rewrite written_payload.
+  destruct (visible c o); [|reflexivity]. unfold exp_out. now rewrite written_payload.
 Qed.
 
 Lemma outs_length : forall rs c l reads outs hist,
@@ -307,11 +310,13 @@ Proof.
   destruct (Nat.eqb (f x) o); cbn [map snd]; now rewrite IH.
 Qed.
 
-Lemma all_requested_nth : forall c o, all_requested c = true -> (o <= ploidy c)%nat -> nth o (req c) false = true.
+Lemma all_requested_visible : forall c o, all_requested c = true -> (o <= ploidy c)%nat -> visible c o = true.
 Proof.
-  intros c o H Ho. unfold all_requested in H. rewrite forallb_forall in H. apply H.
-  apply nth_In. unfold req, ploidy in *. cbn [length]. lia.
+  intros c o H Ho. unfold all_requested in H. rewrite forallb_forall in H. apply H. apply in_seq. lia.
 Qed.
+
+Lemma all_requested_nth : forall c o, all_requested c = true -> (o <= ploidy c)%nat -> nth o (req c) false = true.
+Proof. intros c o H Ho. apply visible_req. now apply all_requested_visible. Qed.
 
 Lemma outputs_partition : forall rs c l reads outs hist,
   all_requested c = true -> add_untagged c = false -> discard c = false ->
@@ -330,7 +335,7 @@ Proof.
   - unfold lab. rewrite Forall_forall. intros k Hk. apply in_map_iff in Hk as [r [<- _]].
     unfold label. pose proof (assign_range c (entries l) (rname r) Hok). lia.
   - intros o Ho. rewrite (routing_gen rs c l reads outs hist o) by (try assumption; now rewrite Hdis).
-    rewrite (all_requested_nth c o Hall Ho). do 2 f_equal. unfold lab. rewrite combine_filter_label.
+    rewrite (all_requested_visible c o Hall Ho). do 2 f_equal. unfold lab. rewrite combine_filter_label.
     apply filter_ext_in'. intros r _. unfold kept, goes_to, label. rewrite Hdis, Hadd. cbn [negb orb andb].
     rewrite andb_false_r, orb_false_r.
     pose proof (assign_range c (entries l) (rname r) Hok).
@@ -538,7 +543,7 @@ Proof.
 Qed.
 
 (* ------------------------------------------------------------------------ refutations (witnesses) *)
-Definition w_cfg : cfg := mkCfg true [true; true] false false true true.
+Definition w_cfg : cfg := mkCfg true [true; true] [false; false; false] false false true true.
 Definition w_list : hlist := mkList false false [(1, 1, 0, 0); (2, 2, 0, 0); (3, 0, 0, 0)].
 Definition w_reads : list read := [(1, 4, 101, 101); (1, 2, 102, 102); (2, 1, 103, 103); (3, 5, 104, 104)].
 
@@ -558,7 +563,7 @@ Lemma dup_assert_refutes_totality :
   l1 w_cfg w_list2 w_reads (run repaired w_cfg w_list2 w_reads) = true.
 Proof. vm_compute. repeat split; reflexivity. Qed.
 
-Definition w_cfg3 : cfg := mkCfg true [true; true] false false false true.
+Definition w_cfg3 : cfg := mkCfg true [true; true] [false; false; false] false false false true.
 Definition w_reads3 : list read := [(1, 4, 101, 101); (2, 4, 103, 103); (3, 5, 104, 104)].
 Lemma hist_rows_refute_counts :
   valid_input w_cfg3 w_list = true /\
@@ -570,14 +575,15 @@ Proof. split; [reflexivity|]. eexists; eexists. vm_compute. repeat split; reflex
 
 Lemma str_refutes_unmodified : forall c l r,
   rlibstr r <> rpayload r -> check_list legacy c l = None ->
-  nth 1 (req c) false = true -> kept c (entries l) r = true -> assign c (entries l) (rname r) = 1 ->
+  visible c 1 = true -> kept c (entries l) r = true -> assign c (entries l) (rname r) = 1 ->
   exists outs hist, run legacy c l [r] = Done outs hist /\ nth 1 outs None = Some [rlibstr r] /\
     exp_out c (entries l) (assign c (entries l)) [r] 1 = [rpayload r].
 Proof.
-  intros c l r Hne Hchk Hreq Hk Ha. unfold run. rewrite Hchk. eexists; eexists. split; [reflexivity|].
+  intros c l r Hne Hchk Hvis Hk Ha. pose proof (visible_req c 1 Hvis) as Hreq.
+  unfold run. rewrite Hchk. eexists; eexists. split; [reflexivity|].
   assert (Hp : (1 <= ploidy c)%nat).
   { unfold req in Hreq. unfold ploidy. destruct (req_h c); [discriminate|cbn; lia]. }
-  rewrite outputs_nth by assumption. rewrite Hreq.
+  rewrite outputs_nth by assumption. rewrite Hvis.
   unfold events. cbn [pass]. unfold kept in Hk.
   assert (Hd : discard c && negb (known (entries l) (rname r)) = false).
   { destruct (discard c), (known (entries l) (rname r)); cbn in *; congruence. }
@@ -598,7 +604,7 @@ Lemma add_untagged_spec : forall rs c l reads outs hist o,
   early_exit rs = false -> fastq_via_str rs = false ->
   add_untagged c = true -> discard c = false ->
   run rs c l reads = Done outs hist ->
-  (1 <= o <= ploidy c)%nat -> nth o (req c) false = true ->
+  (1 <= o <= ploidy c)%nat -> visible c o = true ->
   nth o outs None =
   Some (map rpayload (filter (fun r => (assign c (entries l) (rname r) =? Z.of_nat o) ||
                                        (assign c (entries l) (rname r) =? 0)) reads)).
@@ -614,7 +620,7 @@ Lemma discard_spec : forall rs c l reads outs hist o,
   early_exit rs = false -> fastq_via_str rs = false ->
   discard c = true ->
   run rs c l reads = Done outs hist ->
-  (o <= ploidy c)%nat -> nth o (req c) false = true ->
+  (o <= ploidy c)%nat -> visible c o = true ->
   nth o outs None =
   Some (map rpayload (filter (fun r => known (entries l) (rname r) &&
                                        goes_to c (assign c (entries l) (rname r)) o) reads)).
@@ -628,7 +634,7 @@ Lemma routing_default : forall rs c l reads outs hist o,
   fastq_via_str rs = false ->
   add_untagged c = false -> discard c = false ->
   run rs c l reads = Done outs hist ->
-  (o <= ploidy c)%nat -> nth o (req c) false = true ->
+  (o <= ploidy c)%nat -> visible c o = true ->
   nth o outs None =
   Some (map rpayload (filter (fun r => assign c (entries l) (rname r) =? Z.of_nat o) reads)).
 Proof.
@@ -970,11 +976,11 @@ Qed.
 
 Lemma routing_with_true : forall c es f reads outs,
   (forall o, (o <= ploidy c)%nat ->
-     nth o outs None = if nth o (req c) false then Some (exp_out c es f reads o) else None) ->
+     nth o outs None = if visible c o then Some (exp_out c es f reads o) else None) ->
   routing_with c es f reads outs = true.
 Proof.
   intros c es f reads outs H. unfold routing_with. apply forallb_forall. intros o Ho. apply in_seq in Ho.
-  rewrite H by lia. destruct (nth o (req c) false); [|reflexivity]. cbn [andb]. apply zlist_eqb_refl.
+  rewrite H by lia. destruct (visible c o); [|reflexivity]. cbn [andb]. apply zlist_eqb_refl.
 Qed.
 
 Lemma valid_check_list_repaired : forall c l, valid_input c l = true -> check_list repaired c l = None.
@@ -1053,7 +1059,7 @@ Section L1Sound.
   Proof.
     apply routing_with_true. intros o Ho.
     rewrite (routing repaired c l reads _ _ o eq_refl eq_refl run_repaired Ho).
-    destruct (nth o (req c) false); [|reflexivity]. f_equal. apply exp_out_ext. intros r Hr. symmetry. now apply ra_on_reads.
+    destruct (visible c o); [|reflexivity]. f_equal. apply exp_out_ext. intros r Hr. symmetry. now apply ra_on_reads.
   Qed.
 
   Lemma ch_in : In ch (all_choices c es (amb_names c es reads)).
@@ -1093,7 +1099,7 @@ Section L1Sound.
   Proof.
     intros Hp. unfold partition_applies in Hp. apply andb_true_iff in Hp as [Hp Hd]. apply andb_true_iff in Hp as [Hall Ha].
     apply negb_true_iff in Hd, Ha. unfold outputs. apply map_ext_in. intros o Ho. apply in_seq in Ho.
-    rewrite (all_requested_nth c o Hall) by lia. f_equal. unfold evs, events.
+    rewrite (all_requested_visible c o Hall) by lia. f_equal. unfold evs, events.
     rewrite out_reads_no_exit; [|apply andb_false_r | apply all_requested_nth; [assumption|lia]].
     unfold F. apply f_equal. apply filter_ext_in'. intros r _. unfold kept, goes_to. rewrite Hd, Ha. cbn [negb orb andb].
     now rewrite andb_false_r, orb_false_r.
@@ -1192,7 +1198,7 @@ Qed.
 Lemma routing_with_meaning : forall c es f reads outs,
   routing_with c es f reads outs = true ->
   forall o, (o <= ploidy c)%nat ->
-    nth o outs None = if nth o (req c) false then Some (exp_out c es f reads o) else None.
+    nth o outs None = if visible c o then Some (exp_out c es f reads o) else None.
 Proof.
   intros c es f reads outs H o Ho. unfold routing_with in H. rewrite forallb_forall in H.
   specialize (H o). rewrite in_seq in H. specialize (H ltac:(lia)).
@@ -1207,11 +1213,35 @@ Lemma l1_routing_meaning : forall c l reads outs,
   exists a : Z -> Z,
     (forall n, In (a n) (cands c (entries l) n)) /\
     forall o, (o <= ploidy c)%nat ->
-      nth o outs None = if nth o (req c) false then Some (exp_out c (entries l) a reads o) else None.
+      nth o outs None = if visible c o then Some (exp_out c (entries l) a reads o) else None.
 Proof.
   intros c l reads outs H. unfold l1_routing in H. apply andb_true_iff in H as [Hlen H].
   split; [now apply Nat.eqb_eq|].
   apply existsb_exists in H as [ch [Hch Hr]]. exists (resolve c (entries l) ch). split.
   - now apply (resolve_in_cands c (entries l) _ ch Hch).
   - now apply routing_with_meaning.
+Qed.
+
+(* ------------------------------------------------ the null device as output path changes no counter *)
+Definition with_null (c : cfg) (nl : list bool) : cfg :=
+  mkCfg (req_untagged c) (req_h c) nl (add_untagged c) (only_largest c) (discard c) (want_hist c).
+
+Lemma pass_with_null : forall rs c nl es reads m,
+  pass rs (with_null c nl) es m reads = pass rs c es m reads.
+Proof.
+  intros rs c nl es reads. induction reads as [|r reads IH]; intros m; [reflexivity|].
+  cbn [pass]. rewrite !IH. reflexivity.
+Qed.
+
+Lemma null_device_same_histogram : forall rs c nl l reads,
+  match run rs (with_null c nl) l reads, run rs c l reads with
+  | Done _ h1, Done _ h2 => h1 = h2
+  | Fail e1, Fail e2 => e1 = e2
+  | _, _ => False
+  end.
+Proof.
+  intros rs c nl l reads. unfold run.
+  change (check_list rs (with_null c nl) l) with (check_list rs c l).
+  destruct (check_list rs c l); [reflexivity|].
+  unfold events. rewrite pass_with_null. reflexivity.
 Qed.
